@@ -291,6 +291,7 @@ Backtrack:
 		current = skipped.n.children[skipped.childIndex]
 
 		*c.params = (*c.params)[:skipped.paramCnt]
+		paramCnt = skipped.paramCnt
 		charsMatched = skipped.pathIndex
 		goto Walk
 	}
@@ -592,6 +593,7 @@ Backtrack:
 		current = skipped.n.children[skipped.childIndex]
 
 		*c.params = (*c.params)[:skipped.paramCnt]
+		paramCnt = skipped.paramCnt
 		charsMatched = skipped.pathIndex
 		goto Walk
 	}
